@@ -1041,3 +1041,8 @@ V("solver-config-array-copy-true", "neutral", ["C15", "C11", "C12"], BS, "      
 # ---- R-SOLE-CANDIDATE candidate-test-bypassed (round 6, C08-x1)
 V("max-eq-candidate-elif", "break", ["C02", "C08"], P + "max_eq_propagator.py", "        if x[i, MAX] >= y[MIN]:", "        elif x[i, MAX] >= y[MIN]:",
   "the candidate test merged into an elif of the 'cut back to y.max' test: a variable cut back in this execution is not counted", "compute_domains_max_eq", expect_rule="R-SOLE-CANDIDATE")
+# ---- round 6: R-MODE-ARITH invert-on-truth-value (C15-x2), one-marker-last for C12 (C12-x3)
+V("shaving-counters-branchless", "break", ["C15", "C17"], SH, None, None, "the two outcome counters fed with has_shaved / ~has_shaved: ~ on a Python bool is -1 / -2 when interpreted",
+  "shaving_consistency_algorithm", expect_rule=None,
+  edits=[{"old": "        if has_shaved:\n            statistics[STATS_IDX_ALG_SHAVING_CHANGE_NB] += 1\n        else:\n            statistics[STATS_IDX_ALG_SHAVING_NO_CHANGE_NB] += 1\n",
+          "new": "        statistics[STATS_IDX_ALG_SHAVING_CHANGE_NB] += has_shaved\n        statistics[STATS_IDX_ALG_SHAVING_NO_CHANGE_NB] += ~has_shaved\n        if not has_shaved:\n"}])
